@@ -314,6 +314,7 @@ fn main() {
             }
             for op in REDUCE_OPS { let t = g.shape(2); fixed.push(g.case(op, vec![("keepdims", Attr::Int(0))], 1, vec![G::inp('f', Sym::Shape(t)), G::inp('i', Sym::Vector(vec![SymExpr::Value(-1)]))])); }
             let thorough = args.get(4).map(|t| t == "thorough").unwrap_or(false);
+            fixed.extend(g.value_layout_cases(thorough));
             fixed.extend(g.pool_conv_cases(thorough));
             for l in fixed.iter().take(n) { writeln!(out, "{}", l).unwrap(); }
             for k in 0..n.saturating_sub(fixed.len()) {
